@@ -6,6 +6,7 @@ import ast
 
 from sa.cfg import cfg_of
 from sa.facts import result_sites
+from sa.guards import atoms as _atoms
 from sa.guards import GuardView, atom_of, names_in
 from sa.index import own_nodes
 from sa.report import Ctx
@@ -308,6 +309,24 @@ def run(ctx: Ctx):
     kpf = ctx.func("utils.pricing", "knapsack_pricing")
     _need(ctx, "C17-O7", "R30 ACCUMULATOR-PAIRING", kpf, "pricing DP: a state is extended only from a reachable state, on strict improvement, and value and pattern are updated together (one more copy of item i)", ["dp_val[0] = 0.0", "prev_w = w - size_i\n                if dp_val[prev_w] > -float('inf'):\n                    new_val = dp_val[prev_w] + values[i]\n                    if new_val > dp_val[w] + eps:\n                        dp_val[w] = new_val\n                        dp_pat[w] = list(dp_pat[prev_w])\n                        dp_pat[w][i] += 1", "for _ in range(max_copies[i]):\n            for w in range(cap_int, size_i - 1, -1):"])
     _need(ctx, "C17-O7", "R30 ACCUMULATOR-PAIRING", kpf, "the best state over all weights is returned with its own pattern", ["for w in range(cap_int + 1):\n        if dp_val[w] > best_val + eps:\n            best_val = dp_val[w]\n            best_w = w", "best_w = 0\n    best_val = 0.0", "best_pat = dp_pat[best_w] if best_val > eps else [0] * n", "return (tuple(best_pat), best_val)"])
+    # an item is left out of the pricing DP only when its dual value is not positive: every other skip under-reports the
+    # best pattern value, column generation stops early and the unproven master LP value is used as a bound
+    kcfg = cfg_of(kpf.node)
+    kgv = GuardView(kcfg)
+    ext = [n for n in own_nodes(kpf.node) if isinstance(n, ast.Assign) and ast.unparse(n.targets[0]) == "dp_val[w]"]
+    ctx.floor("DP state updates in knapsack_pricing", len(ext), 1)
+    for x in ext:
+        xn = kcfg.node_of(x)
+        outer = xn.loop
+        while outer is not None and outer.loop is not None:
+            outer = outer.loop
+        inside = {id(y) for y in ast.walk(outer.ast)} if outer is not None else set()
+        at = set()
+        for br in kcfg.guards(xn):
+            if br.test.kind == "test" and id(br.test.ast) in inside:
+                at |= _atoms(br.test.ast, br.pol)
+        item_level = at - {atom_of("dp_val[prev_w] > -float('inf')"), atom_of("new_val > dp_val[w] + eps")}
+        ctx.ob("C17-O7", "R12 NO-CARDINALITY-CUTOFF", kpf, "every item with a positive value takes part in the pricing DP", item_level <= {atom_of("values[i] > eps")}, f"items are also skipped under {sorted(item_level - {atom_of('values[i] > eps')})}: the DP then under-reports the best pattern value, pricing finds 'no improving column' too early and a non-minimal plan is labelled OPTIMAL", node=x)
     mfr = ctx.func("bp", "_most_fractional")
     _need(ctx, "C17-O7", "R18 table", mfr, "branching variable: the positive entry farthest from an integer; none -> the point is integral", ["if x > eps:\n            frac = abs(x - round(x))\n            if frac > eps and frac > best_frac:\n                best_idx, best_frac = (i, frac)", "if best_idx is not None:\n        return (best_idx, x_vals[best_idx])\n    return (None, None)"])
     _need(ctx, "C17-O7", "R16 PAIRED-EFFECTS", bnp, "branching creates two children that together cover the node: x <= floor(v) and x >= ceil(v) on the same column, each with the node's own bounds and the node's LP value as bound", ["left_bounds = list(node.column_bounds)\n        left_bounds.append((frac_idx, 0.0, floor(val)))\n        heappush(tree, (lp_obj, counter, _BPNode(lp_obj, tuple(left_bounds), node.depth + 1)))\n        counter += 1", "right_bounds = list(node.column_bounds)\n        right_bounds.append((frac_idx, ceil(val), float('inf')))\n        heappush(tree, (lp_obj, counter, _BPNode(lp_obj, tuple(right_bounds), node.depth + 1)))\n        counter += 1"])
@@ -371,6 +390,17 @@ def _v_bp_float_objective(tree):
 def _v_root_lp_obj(tree):
     g = M.find_func(tree, "_branch_and_price")
     M.replace_expr(g, lambda e: M.src_is(e, "float(sum(solution.values()))"), M.expr("lp_obj"))
+
+
+def _v_pricing_dominance_skip(tree):
+    g = M.find_func(tree, "knapsack_pricing")
+    M.replace_stmt(g, lambda s: isinstance(s, ast.Assign) and M.src_is(s.targets[0], "size_i"), lambda s: [s] + M.stmts("if any(sizes_int[k] == size_i and values[k] >= values[i] for k in range(n) if k != i):\n    continue"))
+
+
+def _v_root_integrality_gap_tol(tree):
+    g = M.find_func(tree, "_branch_and_price")
+    if not M.replace_expr(g, lambda e: M.src_is(e, "_most_fractional(x_vals, eps)"), M.expr("_most_fractional(x_vals, gap_tol)"), count=1):
+        raise M.Skip("root integrality test not found")
 
 
 def _v_no_drive_out(tree):
@@ -442,6 +472,8 @@ def _t_reformat(tree):
 
 
 VARIANTS = [
+    M.Variant("pricing DP skips an item when another of the same size is worth at least as much (seed C17-G)", PRI, _v_pricing_dominance_skip, "C17-O7"),
+    M.Variant("root integrality test of branch-and-price uses gap_tol instead of eps (seed C17-H)", BP, _v_root_integrality_gap_tol, "C17-G8"),
     M.Variant("cg OPTIMAL without the convergence flag (original defect)", CG, _v_cg_no_flag, "C17-O2"),
     M.Variant("cg sets the flag on a progress stop", CG, _v_cg_flag_on_progress, "C17-O2"),
     M.Variant("cg flag starts true", CG, _v_cg_flag_init_true, "C17-O2"),
